@@ -205,7 +205,14 @@ func (c *FnCtx) runTop(rep *FnReport, kf *KnownFindings) (err error) {
 		v := c.fresh("free$"+fv.Name(), fv.Type(), st)
 		c.sc.Assume("(> " + v.E + " 0)")
 		fr.free = append(fr.free, v)
-		_ = k
+		// a captured variable that its function initialises once and nobody reassigns (x := e, a captured parameter)
+		// holds the same value for the whole run of the closure, whatever unknown code is called in between
+		if a := capturedAlloc(fn, k); a != nil && singleStoreCell(a) {
+			if pt, ok := fv.Type().Underlying().(*types.Pointer); ok && !isStructVal(pt.Elem()) {
+				l := &Loc{Kind: locCell, Ref: v.E, RootT: pt.Elem(), Comp: c.cellHeap(pt.Elem())}
+				c.constCell[v.E] = c.load(st, l, nil)
+			}
+		}
 	}
 	c.prescanTracked(fn, spec, 0, map[*ssa.Function]bool{})
 	env := c.newEnv(fr, st, st)
@@ -501,4 +508,22 @@ func (c *FnCtx) prescanTracked(fn *ssa.Function, spec *FuncSpec, depth int, seen
 			}
 		}
 	}
+}
+
+// capturedAlloc: the variable cell of the enclosing function that the k-th free variable of closure fn is bound to.
+func capturedAlloc(fn *ssa.Function, k int) *ssa.Alloc {
+	p := fn.Parent()
+	if p == nil {
+		return nil
+	}
+	for _, b := range p.Blocks {
+		for _, ins := range b.Instrs {
+			if mc, ok := ins.(*ssa.MakeClosure); ok && mc.Fn == ssa.Value(fn) && k < len(mc.Bindings) {
+				if a, ok := mc.Bindings[k].(*ssa.Alloc); ok {
+					return a
+				}
+			}
+		}
+	}
+	return nil
 }
